@@ -84,6 +84,7 @@ Definition SR (c : cfg hstate) (cf : wconf) : Prop :=
   | HEndTagOpen => wst cf = WEndTagOpen
   | HTagName => wst cf = WTagName /\ tag0 c cf
   | HSelfClosingStartTag => wst cf = WSelfClosingStartTag /\ tag0 c cf
+  | HBogusComment => wst cf = WBogusComment /\ wcomment cf = comment c
   | HRawData KRcdata => wst cf = WRcdata
   | HRawData KRawtext => wst cf = WRawtext
   | HRawData KScriptData => wst cf = WScriptData
@@ -119,7 +120,7 @@ Notation RelH := (Rel SR).
 (* the states whose obligations are discharged below *)
 Definition covered (s : hstate) : bool :=
   match s with
-  | HData | HPlaintext | HTagOpen | HEndTagOpen | HTagName | HSelfClosingStartTag | HRawData KRcdata | HRawData KRawtext | HRawData KScriptData
+  | HData | HPlaintext | HTagOpen | HEndTagOpen | HTagName | HSelfClosingStartTag | HBogusComment | HRawData KRcdata | HRawData KRawtext | HRawData KScriptData
   | HRawData (KScriptDataEscaped KEscaped) | HRawData (KScriptDataEscaped KDoubleEscaped)
   | HRawLessThanSign KRcdata | HRawLessThanSign KRawtext | HRawLessThanSign KScriptData
   | HRawLessThanSign (KScriptDataEscaped KEscaped) | HRawLessThanSign (KScriptDataEscaped KDoubleEscaped)
@@ -211,7 +212,7 @@ Ltac core_start :=
   destruct cf as [w ret tmp tag cm doc code last out];
   destruct G as [gbom gtmp gtk gtn gtself gtdup gta gan gav gcm gdn gdp gds gdq gpt gpd gls];
   unfold SR, clean_attr, raw_tag, tag0 in HS;
-  cbn [mkM mc st wst wlast wtmp wtag_ wout last_start attr_name attr_value temp_buf tag_name tag_kind tag_self tag_attrs tag_dup
+  cbn [mkM mc st wst wlast wtmp wtag_ wout wcomment comment last_start attr_name attr_value temp_buf tag_name tag_kind tag_self tag_attrs tag_dup
        g_bom g_tmp g_tk g_tn g_tself g_tdup g_ta g_an g_av g_cm g_dn g_dp g_ds g_dq g_pt g_pd g_ls] in HS, HF;
   decompose [and or] HS; clear HS; subst; cbn [is_end] in *;
   cbn [exec ceval_cond]; unfold memb, existsb;
@@ -245,6 +246,7 @@ Ltac tag_core := core_start; split_tests; lookup_split; leafF.
 Lemma core_TagOpen : forall k0, kbody HTagOpen = Some k0 -> core_ok HTagOpen k0. Proof. auto_core. Qed.
 Lemma core_EndTagOpen : forall k0, kbody HEndTagOpen = Some k0 -> core_ok HEndTagOpen k0. Proof. auto_core. Qed.
 Lemma core_TagName : forall k0, kbody HTagName = Some k0 -> core_ok HTagName k0. Proof. tag_core. Qed.
+Lemma core_BogusComment : forall k0, kbody HBogusComment = Some k0 -> core_ok HBogusComment k0. Proof. nul_core. Qed.
 Lemma core_SelfClosing : forall k0, kbody HSelfClosingStartTag = Some k0 -> core_ok HSelfClosingStartTag k0. Proof. tag_core. Qed.
 
 Lemma core_RawLt_Rcdata : forall k0, kbody (HRawLessThanSign KRcdata) = Some k0 -> core_ok (HRawLessThanSign KRcdata) k0.
@@ -311,7 +313,7 @@ Ltac eof_tac :=
   destruct cf as [w ret tmp tag cm doc code last out];
   destruct G as [gbom gtmp gtk gtn gtself gtdup gta gan gav gcm gdn gdp gds gdq gpt gpd gls];
   unfold SR, clean_attr, raw_tag, tag0 in HS;
-  cbn [mkM mc st wst wlast wtmp wtag_ wout last_start attr_name attr_value temp_buf tag_name tag_kind tag_self tag_attrs tag_dup
+  cbn [mkM mc st wst wlast wtmp wtag_ wout wcomment comment last_start attr_name attr_value temp_buf tag_name tag_kind tag_self tag_attrs tag_dup
        g_bom g_tmp g_tk g_tn g_tself g_tdup g_ta g_an g_av g_cm g_dn g_dp g_ds g_dq g_pt g_pd g_ls] in HS, HF;
   decompose [and or] HS; clear HS; subst; cbn [is_end] in *;
   (eexists; exists 8%nat; eexists; split;
@@ -324,7 +326,7 @@ Lemma core_all : forall s, covered s = true -> exists k0, kbody s = Some k0 /\ c
 Proof.
   intros s Hs. destruct s; try discriminate Hs; try (destruct k; try discriminate Hs; try (destruct k; try discriminate Hs));
     (eexists; split; [reflexivity|]);
-    first [apply core_TagOpen|apply core_EndTagOpen|apply core_TagName|apply core_SelfClosing|apply core_Data|apply core_Plaintext|apply core_Rcdata|apply core_Rawtext|apply core_Script|apply core_Esc|apply core_DEsc
+    first [apply core_BogusComment|apply core_TagOpen|apply core_EndTagOpen|apply core_TagName|apply core_SelfClosing|apply core_Data|apply core_Plaintext|apply core_Rcdata|apply core_Rawtext|apply core_Script|apply core_Esc|apply core_DEsc
           |apply core_RawLt_Rcdata|apply core_RawLt_Rawtext|apply core_RawLt_Script|apply core_RawLt_Esc|apply core_RawLt_DEsc
           |apply core_RawETO_Rcdata|apply core_RawETO_Rawtext|apply core_RawETO_Script|apply core_RawETO_Esc
           |apply core_RawETN_Rcdata|apply core_RawETN_Rawtext|apply core_RawETN_Script|apply core_RawETN_Esc
@@ -388,7 +390,7 @@ End R.
 
 (* ---------------------------------------------------------------- the refinement theorem, as far as the obligations are discharged *)
 Definition covered_states : list hstate :=
-  [HData; HPlaintext; HTagOpen; HEndTagOpen; HTagName; HSelfClosingStartTag; HRawData KRcdata; HRawData KRawtext; HRawData KScriptData; HRawData (KScriptDataEscaped KEscaped);
+  [HData; HPlaintext; HTagOpen; HEndTagOpen; HTagName; HSelfClosingStartTag; HBogusComment; HRawData KRcdata; HRawData KRawtext; HRawData KScriptData; HRawData (KScriptDataEscaped KEscaped);
    HRawData (KScriptDataEscaped KDoubleEscaped); HRawLessThanSign KRcdata; HRawLessThanSign KRawtext; HRawLessThanSign KScriptData;
    HRawLessThanSign (KScriptDataEscaped KEscaped); HRawLessThanSign (KScriptDataEscaped KDoubleEscaped);
    HRawEndTagOpen KRcdata; HRawEndTagOpen KRawtext; HRawEndTagOpen KScriptData; HRawEndTagOpen (KScriptDataEscaped KEscaped);
@@ -396,7 +398,7 @@ Definition covered_states : list hstate :=
    HScriptDataEscapeStart KEscaped; HScriptDataEscapeStartDash; HScriptDataEscapedDash KEscaped; HScriptDataEscapedDashDash KEscaped;
    HScriptDataEscapeStart KDoubleEscaped; HScriptDataEscapedDash KDoubleEscaped; HScriptDataEscapedDashDash KDoubleEscaped;
    HScriptDataDoubleEscapeEnd].
-Lemma covered_states_ok : forallb covered covered_states = true /\ length covered_states = 32%nat.
+Lemma covered_states_ok : forallb covered covered_states = true /\ length covered_states = 33%nat.
 Proof. split; reflexivity. Qed.
 
 (* For every input text, start state among Data / PLAINTEXT / RCDATA / RAWTEXT / script data (escaped, double escaped), last
